@@ -69,6 +69,8 @@ FALSE_ALARMS = [
     "C14: `zzf(int n)` called with a Signal is documented as legal coercion, and `step 1 - 1` is a syntax error, not a zero step: both variants removed; 'Unknown entity' added to the accepted wording.",
     "C16: a name declared at top level and again in a loop body labels two entities; the ambiguous label is not used for the reference comparison (the value is compared through a later reader).",
     "C01: after the colouring repair the old witness of the three-colour finding was attributed to a different mechanism; witness replaced by one that contains only the three-colour pattern.",
+    "C15 twin: `inline_calls` substituted a parameter also inside a loop whose iterator has the parameter's name (the iterator shadows it); the twin transformer now respects the shadowing.",
+    "C11 thorough: the const_to_input twin build of a few cases is hit by K1 (stage classification: logical passes, physical fails, emitted = planned partition); K1 is now listed for C11 with such a case as witness.",
     "`fail(k)` schedule: returning UNKNOWN without solving made OR-tools raise; now a real solve with a vanishing budget.",
 ]
 
